@@ -301,6 +301,9 @@ class Actor:
         self.vfile = None
         self.ntok = 0
         self.tokhash = 0
+        self.nest = None  # same-thread nesting plan of the current op
+        self.nest_out = None
+        self.runner = None
 
 
 def _peek(obj, name):
@@ -345,6 +348,14 @@ def make_sim_lexer(world, actor):
                         world.fire_abort(a, self, None)
             if not a.tracing:
                 sched.yield_point(a)
+            nest = a.nest
+            if nest is not None and a.tok_calls >= nest["at"] and a is actor:
+                # interleaving on ONE thread: the program calls other parsers /
+                # generators from inside this parse (a callback, a generator-style
+                # driver) and comes back - no second thread involved
+                a.nest = None
+                world.nested_calls += 1
+                a.nest_out = a.runner._run_inner(nest["ops"])
             tok = base.token(self)
             world.log_token(a, self, tok)
             return tok
@@ -391,6 +402,7 @@ class World:
         self.code_cache = {}
         self.by_thread = {}
         self.foreign_lexer_calls = 0
+        self.nested_calls = 0
         self.probes = {}
         self.switch_sites = {}
         self.fired = {}
@@ -729,6 +741,9 @@ class OpRunner:
         a.last_filename = None
         a.abort_probe = None
         a.last_site = "op-start"
+        a.runner = self
+        a.nest_out = None
+        a.nest = op.get("nest") if not self.w.spec.get("nest_sequential") else None
         a.objs.pop("_cur_parser", None)
         a.objs.pop("_cur_lexer", None)
 
@@ -763,6 +778,17 @@ class OpRunner:
             res["hang"] = True
             sys.settrace(None)
             a.tracing = False
+        a.nest = None
+        if op.get("nest"):
+            if a.nest_out is None and (res.get("out") or {}).get("k") not in ("abort", "hang", None):
+                # the reference order (and the fallback when the parse ended before the
+                # nesting point): the inner calls one after the other, after the outer one
+                try:
+                    a.nest_out = self._run_inner(op["nest"]["ops"])
+                    res["nest_sequential"] = True
+                except (KeyboardInterrupt, MemoryError, SimAbort, StepCap):
+                    a.nest_out = None
+            res["nest_out"] = a.nest_out
         res["ntok"] = a.ntok
         res["tokhash"] = "%016x" % a.tokhash
         res["toklog"] = a.toklog if a.ntok <= TOKLOG_LIMIT else None
@@ -772,6 +798,30 @@ class OpRunner:
             res["fault_missed"] = True
         a.fault = None
         return res
+
+    def _run_inner(self, ops):
+        """Brand-new parser (and generator) per inner call, plain lexer; returns the
+        list of outcomes.  Runs on the calling actor's thread."""
+        a = self.a
+        outs = []
+        for iop in ops:
+            text = op_text(iop)
+            fn = iop.get("filename", "")
+            try:
+                ast = self.pyc.c_parser.CParser().parse(text, fn)
+                a.keep.append(ast)
+                if iop.get("op") == "gen":
+                    s = self.pyc.c_generator.CGenerator(reduce_parentheses=bool(iop.get("reduce"))).visit(ast)
+                    outs.append(["ok", s if isinstance(s, str) else repr(s)])
+                else:
+                    outs.append(["ok", canon.ast_form(ast, self.pyc.Node).text])
+            except RecursionError:
+                outs.append(["rec", ""])
+            except (KeyboardInterrupt, MemoryError, SimAbort, StepCap):
+                raise
+            except Exception as e:
+                outs.append(["exc", _outcome_exc(e).get("full") or _outcome_exc(e).get("d")])
+        return outs
 
     # -- parse ------------------------------------------------------------------
     def _parse_outcome(self, parser, text, filename, keep, traced=True):
@@ -1023,6 +1073,11 @@ class OpRunner:
             if not isinstance(s, str):
                 s = repr(s)
             res["out"] = _outcome_ok("ok", s)
+        except (KeyboardInterrupt, MemoryError, SimAbort):
+            # injected abort in the middle of a visit: this generator is thrown away
+            # (C12 promises nothing for it), everything else must be unaffected
+            a.objs.pop(key, None)
+            raise
         except Exception as e:
             res["out"] = _outcome_exc(e)
             # C12 promises nothing for a generator after a *failed* visit
@@ -1066,6 +1121,9 @@ class OpRunner:
         try:
             extra = self.call(walk)
             res["out"] = _outcome_ok("ok", repr(vis.log[start:]) + extra)
+        except (KeyboardInterrupt, MemoryError, SimAbort):
+            a.objs.pop("V:" + op.get("visitor", "Collect") + ":" + tag, None)
+            raise
         except Exception as e:
             res["out"] = _outcome_exc(e)
 
@@ -1460,6 +1518,7 @@ def execute(pyc, spec, keep_full=True):
         "shared_write_lines": len(world.directed_lines or ()),
         "gc_collections": world.gc_runs + world.sched.gc_count,
         "foreign_lexer_calls": world.foreign_lexer_calls,
+        "nested_calls": world.nested_calls,
         "preempted_inside": [a.preempted_inside for a in world.actors],
         "actors": [a.results for a in world.actors],
         "schedule": world.sched.segments,
